@@ -15,6 +15,7 @@ import (
 	"github.com/ethereum/go-ethereum/common/hexutil"
 	"math/big"
 	"os"
+	"sync"
 
 	sdkflags "github.com/cosmos/cosmos-sdk/client/flags"
 	"strconv"
@@ -63,6 +64,8 @@ type twin struct {
 	app       *baseapp.BaseApp
 	name      string
 	nodeLocal func(h int64, txs [][]byte)
+	// queries served by other goroutines WHILE the block executes (a node's gRPC / JSON-RPC server does exactly that)
+	during func(h int64, stop <-chan struct{}, wg *sync.WaitGroup)
 }
 
 type reFix struct {
@@ -161,7 +164,14 @@ func (tw *twin) setup(t *testing.T, s *itutil.ChainIntegrationTestSuite, vestEnd
 
 func (tw *twin) finalize(t *testing.T, s *itutil.ChainIntegrationTestSuite, h int64, txs [][]byte) (*abci.ResponseFinalizeBlock, []byte) {
 	hdr := tw.header(s, h)
+	stop := make(chan struct{})
+	var wg sync.WaitGroup
+	if tw.during != nil && h > 2 {
+		tw.during(h, stop, &wg)
+	}
 	res, err := tw.app.FinalizeBlock(&abci.RequestFinalizeBlock{Height: h, Txs: txs, Hash: blockHashOf(h), Time: hdr.Time, ProposerAddress: hdr.ProposerAddress})
+	close(stop)
+	wg.Wait()
 	require.NoError(t, err)
 	if tw.nodeLocal != nil {
 		tw.nodeLocal(h, txs) // traffic only this node sees: queries and mempool checks between FinalizeBlock and Commit
@@ -206,6 +216,28 @@ func TestEngineReexec(t *testing.T) {
 		}
 		for _, tx := range txs {
 			_, _ = B.app.CheckTx(&abci.RequestCheckTx{Tx: tx, Type: abci.CheckTxType_New})
+		}
+	}
+	B.during = func(h int64, stop <-chan struct{}, wg *sync.WaitGroup) {
+		for g := 0; g < 4; g++ {
+			g := g
+			wg.Add(1)
+			go func() {
+				defer wg.Done()
+				defer func() { _ = recover() }()
+				targets := []common.Address{fx.storer, fx.logger, fx.erc20B, fx.sink}
+				for k := 0; ; k++ {
+					select {
+					case <-stop:
+						return
+					default:
+					}
+					bz, _ := proto.Marshal(&evmtypes.QueryStorageRequest{Address: targets[(k+g)%len(targets)].Hex(), Key: common.BigToHash(big.NewInt(int64(k % 7))).Hex()})
+					_, _ = B.app.Query(context.Background(), &abci.RequestQuery{Path: "/ethermint.evm.v1.Query/Storage", Data: bz, Height: h - 1})
+					bz, _ = proto.Marshal(&evmtypes.QueryCodeRequest{Address: targets[(k+g)%len(targets)].Hex()})
+					_, _ = B.app.Query(context.Background(), &abci.RequestQuery{Path: "/ethermint.evm.v1.Query/Code", Data: bz, Height: h - 1})
+				}
+			}()
 		}
 	}
 	ws := s.WalletAccounts[:5]
@@ -431,7 +463,10 @@ func TestEngineReexec(t *testing.T) {
 			}
 			if w := ws[3]; true { // a contract creation (and, once it exists, a call of the created logger) from a wallet of its own
 				if acc := app.AccountKeeper.GetAccount(ctx, w.GetCosmosAddress()); acc != nil {
-					if r.Bool() || len(restartCreated) == 0 {
+					if r.Chance(1, 4) { // a constructor that loops until its gas is gone: long enough for any timer of the node to fire
+						bz, _ := c.buildEthTx(ethTxArgs{from: w, typ: 2, nonce: acc.GetSequence(), data: codeBurner, gas: 1_500_000, feeCap: price, tip: big.NewInt(1)})
+						txs = append(txs, bz)
+					} else if r.Bool() || len(restartCreated) == 0 {
 						bz, _ := c.buildEthTx(ethTxArgs{from: w, typ: r.Intn(3), nonce: acc.GetSequence(), data: initCode(codeLogger), gas: 400_000, gasPrice: price, feeCap: price, tip: big.NewInt(1)})
 						txs = append(txs, bz)
 						restartCreated = append(restartCreated, crypto.CreateAddress(w.GetEthAddress(), acc.GetSequence()))
@@ -471,7 +506,7 @@ func TestEngineReexec(t *testing.T) {
 			if tr == "json" && os.Getenv("VERIF_TRACER_JSON") == "" {
 				continue // writes every opcode to stderr; behaviourally the same hook set as "struct"
 			}
-			R3 = append(R3, nodeCfg{"evm.tracer=" + tr, newAppWith(cloneDB(), simtestutil.AppOptionsMap{"evm.tracer": tr, "evm.max-tx-gas-wanted": uint64(100_000), "json-rpc.gas-cap": uint64(1), "iavl-cache-size": 1},
+			R3 = append(R3, nodeCfg{"evm.tracer=" + tr, newAppWith(cloneDB(), simtestutil.AppOptionsMap{"evm.tracer": tr, "evm.max-tx-gas-wanted": uint64(100_000), "json-rpc.gas-cap": uint64(1), "json-rpc.evm-timeout": time.Nanosecond, "json-rpc.logs-cap": int32(1), "iavl-cache-size": 1},
 				baseapp.SetMinGasPrices("7000000000"+c.evmDenom))})
 		}
 		if R1.LastBlockHeight() != R2.LastBlockHeight() || !bytes.Equal(R1.LastCommitID().Hash, R2.LastCommitID().Hash) {
